@@ -441,3 +441,8 @@ RULES = [
     Rule("C02.S7", rule_S7, floor=2, doc="goal test on pop"),
     Rule("C02.S8", rule_S8, floor=4, doc="bookkeeping stores"),
 ]
+
+from sa import dims as _dims  # noqa: E402
+
+RULES.append(Rule("C02.AX", _dims.make_rule("C02", "C02.AX"), floor=1,
+                  doc="axis-extent agreement: coordinate components are bounded by the extent of their own axis (E13)"))
